@@ -382,7 +382,7 @@ Proof.
 Qed.
 
 (* ---- an entry of `subscriptions` has its sender in msg_senders, unless it is just being created or the reader has failed;
-   a remove_match between its two steps has taken its entry away; a call in A2 is the only holder of its entry ---- *)
+   a remove_match between its two steps has taken its entry away; the unfiltered channel stays registered until the reader fails ---- *)
 Definition e1 (s : sys) : Prop :=
   forall r e, lookup (subs s) r = Some e -> In (KRule r, e_ch e) (senders s) \/ (exists sid, a2 s sid r (e_ch e)) \/ reader s = RStopped.
 Definition ereg (s : sys) : Prop :=
